@@ -103,6 +103,9 @@ def finish(res: Result, tier: str, seed: int, t0: float, selftest: Optional[dict
     for rule, floor in res.floors.items():
         d = by_rule.get(rule, {OK: 0, VIOLATION: 0, UNDECIDED: 0})
         decided = d[OK] + d[VIOLATION]
+        # the per-rule floor tolerates the merging of duplicated sites by a clean-up (two identical calls hoisted into one): 70 % of the
+        # confirmed count; that no FUNCTION drops out of a rule is checked exactly below (tables/rule_sites.json)
+        floor = max(1, (7 * floor + 9) // 10) if floor > 2 else floor
         if decided < floor:
             soft_errors.append(
                 f"rule {rule}: only {decided} instances decided (floor {floor}, undecided {d[UNDECIDED]}) — "
